@@ -20,17 +20,35 @@ open Gotree
 def pow2 (e : Int) : Rat :=
   if e ≥ 0 then ((2 ^ e.toNat : Nat) : Rat) else 1 / ((2 ^ (-e).toNat : Nat) : Rat)
 
-/-- the float64 nearest to a positive rational (ties to even; normal range, no overflow) -/
-def roundF64 (q : Rat) : Rat :=
-  if q ≤ 0 then 0 else
-  let e0 : Int := (Nat.log2 q.num.toNat : Int) - (Nat.log2 q.den : Int) - 52
-  let s0 := q / pow2 e0
-  let e : Int := if s0 ≥ 9007199254740992 then e0 + 1 else if s0 < 4503599627370496 then e0 - 1 else e0
-  let s := q / pow2 e
+/-- round half to even -/
+def rne (s : Rat) : Int :=
   let m := s.floor
   let r := s - (m : Rat)
-  let m' := if r > 1/2 || (r == 1/2 && m % 2 == 1) then m + 1 else m
-  (m' : Rat) * pow2 e
+  if r > 1/2 || (r == 1/2 && m % 2 == 1) then m + 1 else m
+
+/-- the binary exponent `e` of the last place of a positive rational `q = s·2^e` whose
+    significand `s` lies in `[2^52, 2^53)` (normalisation through `Nat.log2`) -/
+def expoOf (q : Rat) : Int :=
+  let e0 : Int := (Nat.log2 q.num.toNat : Int) - (Nat.log2 q.den : Int) - 52
+  let s0 := q / pow2 e0
+  if s0 ≥ 9007199254740992 then e0 + 1 else if s0 < 4503599627370496 then e0 - 1 else e0
+
+/-- `q` rounded half to even on the grid `2^e`: for `e ≤ 0` the grid is `1/Q`, `Q = 2^(-e)`, for
+    `e > 0` it is `P = 2^e`.  The guard of the last branch restates the normalisation `2^52 ≤ q/2^e`
+    of `expoOf`; it always holds there (not proved — the `else` is never taken; it returns `q` so
+    that `roundF64_ge_nat` / `roundF64_le_nat` hold without the `Nat.log2` facts). -/
+def roundAt (q : Rat) (e : Int) : Rat :=
+  if e ≤ 0 then
+    ((rne (q * ((2 ^ (-e).toNat : Nat) : Rat)) : Int) : Rat) / ((2 ^ (-e).toNat : Nat) : Rat)
+  else
+    if (4503599627370496 : Rat) ≤ q / ((2 ^ e.toNat : Nat) : Rat) then
+      ((rne (q / ((2 ^ e.toNat : Nat) : Rat)) : Int) : Rat) * ((2 ^ e.toNat : Nat) : Rat)
+    else q
+
+/-- the float64 nearest to a positive rational (ties to even; normal range, no overflow).
+    Checked against Go's own product on every case (driver: TIE). -/
+def roundF64 (q : Rat) : Rat :=
+  if q ≤ 0 then 0 else roundAt q (expoOf q)
 
 /-- `int(cutoff*float64(nbtrees))` for a rounding `rnd` of the product -/
 def floatCutG (rnd : Rat → Rat) (c : Rat) (n : Nat) : Nat := (rnd (c * (n : Rat))).floor.toNat
@@ -76,5 +94,51 @@ def cutNow : Rat → Nat → Nat := fmaCut
 
 def consensusNow (ord : List Entry → List Entry) (ts : List T) (c : Rat) : Out :=
   consensusCut cutNow ord ts c
+
+/-! ## thresholds that are not finite numbers -/
+
+/-- a float64 threshold: a finite number (its exact rational value), NaN, or ±Inf -/
+inductive Thr where
+  | fin (c : Rat)
+  | nan
+  | inf (neg : Bool)
+  deriving Repr
+
+/-- `Consensus` on any float64 threshold.  Since def0221 the range check is
+    `!(cutoff >= 0.5 && cutoff <= 1)`, which a NaN fails like an infinity. -/
+def consensusThr (ord : List Entry → List Entry) (ts : List T) : Thr → Out
+  | .fin c => consensusNow ord ts c
+  | .nan => .err "range"
+  | .inf _ => .err "range"
+
+/-- before def0221: the check `cutoff < 0.5 || cutoff > 1` is false for NaN, and
+    `int(NaN*float64(n))` is the least int64, so every bipartition of the index was selected -/
+def consensusThrPinnedNaN (ord : List Entry → List Entry) (ts : List T) : Thr → Out
+  | .nan => consensusCoreCut (fun _ _ => 0) true true ord (ts.map rerootTip) 0
+  | t => consensusThr ord ts t
+
+/-- the special values of `strconv.ParseFloat`: "nan" (no sign), and optionally signed "inf" /
+    "infinity", whatever the case of the letters -/
+def parseSpecial (s : String) : Option Thr :=
+  let cs := s.toList.map Char.toLower
+  if cs == "nan".toList then some .nan else
+  let (neg, r) := match cs with
+    | '+' :: r => (false, r)
+    | '-' :: r => (true, r)
+    | r => (false, r)
+  if r == "inf".toList || r == "infinity".toList then some (.inf neg) else none
+
+/-- the text of `-f` as `cmd/consensus.go` reads it, special values included (`parseCutoff`
+    is the finite decimal part) -/
+def parseCutoffThr (s : String) : Option Thr :=
+  match parseSpecial s with
+  | some t => some t
+  | none => (parseCutoff s).map .fin
+
+/-- the threshold `Consensus` is called with (absent flag: the default 0.5) -/
+def cliCutoffThr (ftext : Option String) : Option Thr :=
+  match ftext with
+  | none => some (.fin (1/2))
+  | some s => parseCutoffThr s
 
 end Gotree.C09
